@@ -22,7 +22,7 @@ def famsNeOf? (t : Term) : Option (List Fam) := do
   if l.isEmpty then none else some l
 
 def negGrOf? : Term → Option NegGr
-  | .list [fs, nb] => do pure { fams := (← famsNeOf? fs), nbit := (← asBool? nb) }
+  | .list [fs, nb] => do pure { fams := (← famsOf? fs), nbit := (← asBool? nb) }
   | _ => none
 
 def codeOf? (t : Term) : Option Nat := do
@@ -48,13 +48,7 @@ def reasonT : Reason → Term
 
 def evOf? : Term → Option Ev
   | .list [.atom "est", fs, gr, ll, lr] => do
-      let fams ← famsOf? fs
-      let gr ← asOpt? negGrOf? gr
-      let ll ← asOpt? famsNeOf? ll
-      -- negotiated GR / LLGR families are families of the session
-      if ((gr.map (·.fams)).getD []).all (fams.contains ·) && (ll.getD []).all (fams.contains ·) then
-        pure (.est fams gr ll (← asBool? lr))
-      else none
+      pure (.est (← famsOf? fs) (← asOpt? negGrOf? gr) (← asOpt? famsOf? ll) (← asBool? lr))
   | .list [.atom "ann", f, n, nl, lc] => do pure (.ann (← famOf? f) (← pfxOf? n) (← asBool? nl) (← asBool? lc))
   | .list [.atom "eor", f] => (famOf? f).map .eor
   | .list [.atom "down", r] => (reasonOf? r).map .down
@@ -64,6 +58,7 @@ def evOf? : Term → Option Ev
   | .atom "force" => some .force
   | .atom "disable" => some .disable
   | .atom "enable" => some .enable
+  | .atom "wait" => some .wait
   | _ => none
 
 def evT : Ev → Term
@@ -78,6 +73,7 @@ def evT : Ev → Term
   | .force => sym "force"
   | .disable => sym "disable"
   | .enable => sym "enable"
+  | .wait => sym "wait"
 
 def ginOf? : Term → Option GIn
   | .list [.atom "dropped", gr, ll] => do pure (.dropped (← asOpt? famsOf? gr) (← asOpt? famsOf? ll))
@@ -97,9 +93,12 @@ inductive Case where
   | glue (evs : List Ev)
   | pure (ins : List GIn)
 
-/-- `(glue ev ...)` or `(pure in ...)` -/
+/-- `(glue ev ...)`, `(glue-short ev ...)` (1 s timers; only there may `wait` occur) or `(pure in ...)` -/
 def caseOf? : Term → Option Case
-  | .list (.atom "glue" :: evs) => (evs.mapM evOf?).map .glue
+  | .list (.atom "glue" :: evs) => do
+      let evs ← evs.mapM evOf?
+      if evs.contains .wait then none else pure (.glue evs)
+  | .list (.atom "glue-short" :: evs) => (evs.mapM evOf?).map .glue
   | .list (.atom "pure" :: ins) => (ins.mapM ginOf?).map .pure
   | _ => none
 
